@@ -194,7 +194,7 @@ def gate():
 
 
 # ------------------------------------------------------------------ extraction + model driver
-MODEL_FILES = ['LexModel', 'MatchModel', 'FmtModel', 'ParserModel', 'RegModel', 'HeapProof', 'QStatic', 'FifoProof', 'ErrQueue', 'NumDecode',
+MODEL_FILES = ['LexModel', 'MatchModel', 'FmtModel', 'ParserModel', 'RegModel', 'CmdModel', 'HeapProof', 'QStatic', 'FifoProof', 'ErrQueue', 'NumDecode',
                'GFmt', 'Dtostre', 'BufModel', 'ExprModel', 'Generated', 'Glue']
 
 
